@@ -106,6 +106,9 @@ let string_of_bools l = if l = [] then "-" else String.concat "" (List.map (fun 
 let zs_of_string s = if s = "-" then [] else List.map cz_of_string (String.split_on_char ',' s)
 let string_of_zs l = if l = [] then "-" else String.concat "," (List.map string_of_cz l)
 
+let ns_of_string s = if s = "-" then [] else List.map (fun x -> cn_of_z (Z.of_string x)) (String.split_on_char ',' s)
+let string_of_ns l = if l = [] then "-" else String.concat "," (List.map string_of_cn l)
+
 (* ---- commands ------------------------------------------------------- *)
 let run (w : string list) : string =
   match w with
@@ -155,6 +158,27 @@ let run (w : string list) : string =
     res_to_string string_of_bools (M.frame_enable_decode (bytes_of_hex d) (bools_of_string cur))
   | [ "div_decode"; d; cur ] ->
     res_to_string string_of_zs (M.frame_div_decode (bytes_of_hex d) (zs_of_string cur))
+  | [ "cmninfo_encode"; a; b; c ] ->
+    res_to_string hex_of_bytes (M.frame_cmninfo_encode (cz_of_string a) (cz_of_string b) (cz_of_string c))
+  | [ "chinfo_encode"; en; ty; vd; dv; ml; name ] ->
+    res_to_string hex_of_bytes (M.frame_chinfo_encode
+      { M.c_en = (en = "1"); c_type = cz_of_string ty; c_vdim = cz_of_string vd; c_div = cz_of_string dv;
+        c_mlen = cz_of_string ml; c_name = ns_of_string name })
+  | [ "ack_encode"; r ] -> res_to_string hex_of_bytes (M.frame_ack_encode (cz_of_string r))
+  | [ "cmninfo_decode"; fid; d ] ->
+    res_to_string (function None -> "none"
+                          | Some ((a, b), c) -> string_of_cz a ^ " " ^ string_of_cz b ^ " " ^ string_of_cz c)
+      (M.frame_cmninfo_decode (cz_of_string fid) (bytes_of_hex d))
+  | [ "chinfo_decode"; fid; d ] ->
+    res_to_string (function None -> "none"
+                          | Some c -> String.concat " " [ (if c.M.c_en then "1" else "0"); string_of_cz c.M.c_type;
+                                                         string_of_cz c.M.c_vdim; string_of_cz c.M.c_div;
+                                                         string_of_cz c.M.c_mlen; string_of_ns c.M.c_name ])
+      (M.frame_chinfo_decode (cz_of_string fid) (bytes_of_hex d))
+  | [ "ack_decode"; fid; d ] ->
+    res_to_string (function None -> "none"
+                          | Some (st, r) -> (if st then "T " else "F ") ^ string_of_cz r)
+      (M.frame_ack_decode (cz_of_string fid) (bytes_of_hex d))
   | _ -> "driver-error unknown-command"
 
 let () =
